@@ -1,4 +1,5 @@
 """C03 — the generated C++ static codec compiles and speaks the canonical wire format."""
+import own_lookup
 import copy
 import json
 import shutil
@@ -195,7 +196,7 @@ def _coerce(fcp, t, v):
     if type(t) is T.OptionalType:
         return None if v is None else coerce(fcp, t.underlying_type, v)
     if type(t) is T.StructType:
-        s = fcp.get_struct(t.name).unwrap()
+        s = own_lookup.struct(fcp, t.name)
         return {f.name: coerce(fcp, f.type, v[f.name]) for f in s.fields}
     return v
 
